@@ -1,10 +1,524 @@
-//! Forged-handle probes (C03). Filled in later.
+//! Forged-handle probes (C03): values constructed for the boundary classes of the live state,
+//! passed to every safe API. Allowed outcomes (DESIGN.md soundness decision 3): absence, a clean
+//! panic from a short allow-list, or — only when the value is bit-identical (slot, generation)
+//! to a live entity of the addressed archetype — exactly that entity.
+
+use gecs::prelude::EntityDirectAny;
 
 use crate::driver::WorldDriver;
 use crate::interp::*;
+use crate::ops::scale;
+use crate::probe::{BOOL_PATHS, VALUE_PATHS};
+use crate::types::*;
+use crate::util::catch;
+
+const ALLOWED_PANICS: [&str; 4] = [
+    "invalid entity handle",      // bounds debug_assert!s in storage.rs (debug builds)
+    "invalid entity type",        // world-level dispatch / find macros on an undeclared id
+    "invalid entity conversion",  // checked from_any
+    "entity.archetype_id() == A::ARCHETYPE_ID", // debug_assert! inside from_any_unchecked
+];
+
+fn allowed_panic(m: &str) -> bool {
+    ALLOWED_PANICS.iter().any(|a| m.contains(a))
+}
 
 impl<'c, W: WorldDriver> Session<'c, W> {
-    pub fn do_forge(&mut self, _si: usize, _a: usize, _class: u8, _x: u16, _y: u16, _route: u8) -> R {
-        Ok(())
+    /// Archetype index with the given id byte, if declared.
+    fn arch_by_id(&self, id: u8) -> Option<usize> {
+        self.infos.iter().position(|i| i.id == id)
+    }
+
+    /// The live entity of `(si, t)` whose (slot, generation) equal those of `raw`, if any.
+    fn live_match(&self, si: usize, t: usize, raw: Raw) -> Option<Raw> {
+        let want = ((raw.0 & !0xff) | self.infos[t].id as u32, raw.1);
+        if self.sims[si].archs[t].live.contains_key(&want) {
+            Some(want)
+        } else {
+            None
+        }
+    }
+
+    pub fn do_forge(&mut self, si: usize, a: usize, class: u8, x: u16, y: u16, route: u8) -> R {
+        self.only_tag = Some("C03");
+        let narch = self.infos.len();
+        let dump = W::dump(&self.sims[si].w, a);
+        let cap = dump.capacity as u32;
+        let len = dump.len as u32;
+        let my_id = self.infos[a].id as u32;
+        let live_raws: Vec<Raw> = self.sims[si].archs[a].live.keys().copied().collect();
+        let free_slots: Vec<(u32, u32)> = dump.slots.iter().enumerate().filter(|(_, s)| s.0 & (1 << 31) != 0).map(|(i, s)| (i as u32, s.1)).collect();
+        let r16 = ((x as u32) << 16) | y as u32;
+        let some_gen = |k: u16| -> u32 {
+            match k % 5 {
+                0 => 1,
+                1 => u32::MAX,
+                2 => 2,
+                _ => (crate::util::mix(k as u64) as u32).max(1),
+            }
+        };
+        let class = class % 12;
+        // ---- direct-handle classes -----------------------------------------------------------
+        if class == 7 || class == 8 {
+            return self.forge_direct(si, a, class, x, y, route);
+        }
+        // ---- entity-handle classes -----------------------------------------------------------
+        let mut dangerous = false;
+        let raw: Raw = match class {
+            0 => (r16, (crate::util::mix(r16 as u64) as u32).max(1)),
+            1 => {
+                // a free slot with its current generation
+                if free_slots.is_empty() {
+                    ((cap << 8) | my_id, 1)
+                } else {
+                    dangerous = true;
+                    let (i, g) = free_slots[scale(x, free_slots.len())];
+                    ((i << 8) | my_id, g)
+                }
+            }
+            2 => {
+                // a live slot with a neighbouring generation
+                if live_raws.is_empty() {
+                    (my_id, some_gen(y))
+                } else {
+                    let r = live_raws[scale(x, live_raws.len())];
+                    let g = match y % 3 {
+                        0 => r.1.wrapping_add(1).max(1),
+                        1 => r.1.wrapping_sub(1).max(1),
+                        _ => some_gen(y),
+                    };
+                    (r.0, g)
+                }
+            }
+            3 => {
+                // indices around len and capacity
+                let idx = match x % 6 {
+                    0 => cap,
+                    1 => cap + 1,
+                    2 => cap.saturating_sub(1),
+                    3 => len,
+                    4 => len.saturating_sub(1),
+                    _ => cap * 2 + 1,
+                } & 0xff_ffff;
+                if idx == cap {
+                    dangerous = true;
+                }
+                let g = dump.slots.get(idx as usize).map(|s| s.1).filter(|_| y % 2 == 0).unwrap_or_else(|| some_gen(y));
+                ((idx << 8) | my_id, g)
+            }
+            4 => ((0xff_ffffu32 << 8) | my_id, some_gen(y)),
+            5 => {
+                // undeclared archetype id, otherwise plausible
+                let mut id = (x & 0xff) as u8;
+                let mut tries = 0;
+                while self.arch_by_id(id).is_some() && tries < 256 {
+                    id = id.wrapping_add(1);
+                    tries += 1;
+                }
+                dangerous = true;
+                let base = live_raws.first().copied().unwrap_or((0, 1));
+                ((base.0 & !0xff) | id as u32, base.1)
+            }
+            6 => {
+                // a live handle of another archetype
+                let b = (a + 1 + (x as usize % (narch.max(2) - 1))) % narch;
+                let others: Vec<Raw> = self.sims[si].archs[b].live.keys().copied().collect();
+                if others.is_empty() {
+                    ((0u32 << 8) | self.infos[b].id as u32, 1)
+                } else {
+                    others[scale(y, others.len())]
+                }
+            }
+            9 => {
+                // a handle of another world (lineage), live or stale there
+                let other = (si + 1) % self.sims.len();
+                let hs = &self.sims[other].handles;
+                if other == si || hs.is_empty() {
+                    (((cap + 3) << 8) | my_id, 1)
+                } else {
+                    hs[scale(x, hs.len())].raw
+                }
+            }
+            10 => {
+                // bit-identical to a live handle: must reach exactly that entity
+                if live_raws.is_empty() {
+                    (my_id, 1)
+                } else {
+                    live_raws[scale(x, live_raws.len())]
+                }
+            }
+            _ => {
+                // stale handle bits with the generation of the slot's current occupant swapped in
+                let hs = &self.sims[si].handles;
+                if hs.is_empty() {
+                    (my_id, 1)
+                } else {
+                    let h = &hs[scale(x, hs.len())];
+                    (h.raw.0, h.raw.1.wrapping_add((y % 3) as u32).max(1))
+                }
+            }
+        };
+        if raw.1 == 0 {
+            return Ok(());
+        }
+        if dangerous {
+            self.label("forge_dangerous");
+        }
+        self.count("forged_probes", 1);
+        let byte = raw_arch_id(raw);
+        // route: API and key kind
+        let all_paths: Vec<LookupPath> = BOOL_PATHS.iter().chain(VALUE_PATHS.iter()).copied().collect();
+        let nroutes = all_paths.len() + 3; // + destroy world / destroy arch / write
+        let r = route as usize % nroutes;
+        let kind = (route as usize / nroutes) % 3; // 0 Any, 1 EntU, 2 Ent (only when the byte matches)
+        let mut key = match kind {
+            0 => Key::Any(raw),
+            1 => Key::EntU(raw),
+            _ => {
+                if byte as u32 == my_id {
+                    Key::Ent(raw)
+                } else {
+                    Key::EntU(raw)
+                }
+            }
+        };
+        // which archetype the call will look into (None = the call must report absence or panic cleanly)
+        let world_level = |p: LookupPath| matches!(p, LookupPath::WContains | LookupPath::WToDirect | LookupPath::WView | LookupPath::WBorrow | LookupPath::Find | LookupPath::FindAny | LookupPath::FindWild | LookupPath::FindBorrow | LookupPath::FindBorrowAny | LookupPath::FindBorrowWild);
+        if r < all_paths.len() {
+            let path = all_paths[r];
+            if path.typed_only() {
+                if let Key::Any(rw) = key {
+                    key = Key::EntU(rw);
+                }
+            }
+            let target: Option<usize> = match key {
+                Key::Any(_) => {
+                    if world_level(path) {
+                        self.arch_by_id(byte)
+                    } else if byte as u32 == my_id {
+                        Some(a)
+                    } else {
+                        None
+                    }
+                }
+                _ => Some(a),
+            };
+            let res = catch(|| W::lookup(&mut self.sims[si].w, a, path, key));
+            return self.judge_forged_lookup(si, a, path, key, raw, target, res);
+        }
+        // destroy / write routes
+        let target: Option<usize> = match (key, r - all_paths.len()) {
+            (Key::Any(_), 0) => self.arch_by_id(byte), // world-level destroy dispatches on the byte
+            (Key::Any(_), _) => {
+                if byte as u32 == my_id {
+                    Some(a)
+                } else {
+                    None
+                }
+            }
+            _ => Some(a),
+        };
+        let matched = target.and_then(|t| self.live_match(si, t, raw).map(|m| (t, m)));
+        match r - all_paths.len() {
+            0 | 1 => {
+                let level = if r - all_paths.len() == 0 { Level::World } else { Level::Arch };
+                // a legitimately matching forged handle would destroy an entity; that is fine, but
+                // generation overflow must be treated like in do_destroy: avoid it here
+                if let Some((t, m)) = matched {
+                    if self.overflow_due_pub(si, t, m).is_some() {
+                        return Ok(());
+                    }
+                }
+                let res = catch(|| W::destroy(&mut self.sims[si].w, a, level, key));
+                match (res, matched) {
+                    (Err(m), _) => {
+                        if allowed_panic(&m) {
+                            self.label("forge_clean_panic");
+                            Ok(())
+                        } else {
+                            Err(self.fail(&["C03"], "forge-panic", format!("destroy({}, {:?}) with forged handle {:?} on {} panicked uncleanly: {}", key.kind_name(), level, raw, self.infos[a].name, m)))
+                        }
+                    }
+                    (Ok(None), None) => Ok(()),
+                    (Ok(Some(out)), Some((t, m))) => {
+                        let e = self.model_remove_pub(si, t, m);
+                        if let (Some((vals, trk)), Some(e)) = (out.comps, e) {
+                            if t == a && (vals != e.vals || trk != e.trk) {
+                                return Err(self.fail(&["C03"], "forge-wrong-entity", format!("destroy with forged handle {:?} bit-identical to live {:?} returned other components", raw, m)));
+                            }
+                        }
+                        self.label("forge_matched_live");
+                        Ok(())
+                    }
+                    (Ok(None), Some((_, m))) => Err(self.fail(&["C03", "C01"], "forge-missed-identical", format!("destroy({}, {:?}) with a value bit-identical to live handle {:?} reported absence", key.kind_name(), level, m))),
+                    (Ok(Some(_)), None) => Err(self.fail(&["C03"], "forge-accepted", format!("destroy({}, {:?}) accepted forged handle {:?} on {} although no live entity of the addressed archetype has these bits", key.kind_name(), level, raw, self.infos[a].name))),
+                }
+            }
+            _ => {
+                let col = (y as usize) % self.infos[a].ncols();
+                let wp = WritePath::pick(x as usize);
+                if wp.by_scan() || (wp.typed_only() && matches!(key, Key::Any(_))) {
+                    return Ok(());
+                }
+                // value to write: keep the model in sync when the forged handle legitimately matches
+                let val = crate::util::stamp(0xF0F0 + self.step as u64, col, 7);
+                let res = catch(|| W::write(&mut self.sims[si].w, a, wp, key, col, val));
+                let wl = matches!(wp, WritePath::Find | WritePath::FindBorrow | WritePath::WViewCompMut | WritePath::WBorrowCompMut);
+                let target: Option<usize> = match key {
+                    Key::Any(_) => {
+                        if wl {
+                            self.arch_by_id(byte)
+                        } else if byte as u32 == my_id {
+                            Some(a)
+                        } else {
+                            None
+                        }
+                    }
+                    _ => Some(a),
+                };
+                let matched = target.and_then(|t| self.live_match(si, t, raw).map(|m| (t, m)));
+                match (res, matched) {
+                    (Err(m), _) => {
+                        if allowed_panic(&m) {
+                            self.label("forge_clean_panic");
+                            Ok(())
+                        } else {
+                            Err(self.fail(&["C03"], "forge-panic", format!("write through {:?} with forged handle {:?} on {} panicked uncleanly: {}", wp, raw, self.infos[a].name, m)))
+                        }
+                    }
+                    (Ok(false), None) => Ok(()),
+                    (Ok(true), Some((t, m))) => {
+                        // the write went to column `col` of the matched entity; with a dynamic key at
+                        // world level the closure parameters are `a`'s columns, so only t == a is
+                        // modelled exactly; otherwise re-read the value through a trusted path
+                        if t == a {
+                            let mask = self.infos[a].masks[col];
+                            let e = self.sims[si].archs[a].live.get_mut(&m).unwrap();
+                            e.vals[col] = val & mask;
+                            e.writes += 1;
+                        } else {
+                            self.resync_entity(si, t, m);
+                        }
+                        self.label("forge_matched_live");
+                        Ok(())
+                    }
+                    (Ok(false), Some((t, m))) => {
+                        if t != a {
+                            // the find closure names `a`'s components: an entity of another archetype is legitimately unmatched
+                            Ok(())
+                        } else {
+                            Err(self.fail(&["C03", "C01"], "forge-missed-identical", format!("write through {:?} with a value bit-identical to live handle {:?} reported absence", wp, m)))
+                        }
+                    }
+                    (Ok(true), None) => Err(self.fail(&["C03"], "forge-accepted", format!("write through {:?} accepted forged handle {:?} on {} although no live entity of the addressed archetype has these bits", wp, raw, self.infos[a].name))),
+                }
+            }
+        }
+    }
+
+    /// Re-reads an entity's stamps into the model (used when a forged but legitimately matching
+    /// dynamic handle wrote through a closure typed for another archetype).
+    fn resync_entity(&mut self, si: usize, t: usize, m: Raw) {
+        if let Ok(Some(o)) = catch(|| W::lookup(&mut self.sims[si].w, t, LookupPath::AResolveSlices, Key::Any(m))) {
+            if let Some(e) = self.sims[si].archs[t].live.get_mut(&m) {
+                if o.vals.len() == e.vals.len() {
+                    e.vals = o.vals;
+                }
+            }
+        }
+    }
+
+    fn judge_forged_lookup(&mut self, si: usize, a: usize, path: LookupPath, key: Key, raw: Raw, target: Option<usize>, res: Result<Option<Obs>, String>) -> R {
+        let name = self.infos[a].name;
+        let matched = target.and_then(|t| self.live_match(si, t, raw).map(|m| (t, m)));
+        match (res, matched) {
+            (Err(m), _) => {
+                if allowed_panic(&m) {
+                    self.label("forge_clean_panic");
+                    Ok(())
+                } else {
+                    Err(self.fail(&["C03"], "forge-panic", format!("{:?} with forged {} {:?} on {} panicked uncleanly: {}", path, key.kind_name(), raw, name, m)))
+                }
+            }
+            (Ok(None), None) => Ok(()),
+            (Ok(None), Some((t, m))) => {
+                // find macros with a dynamic key only match archetypes holding all of `a`'s components
+                let via_find = matches!(path, LookupPath::Find | LookupPath::FindAny | LookupPath::FindWild | LookupPath::FindBorrow | LookupPath::FindBorrowAny | LookupPath::FindBorrowWild);
+                if via_find && t != a {
+                    Ok(())
+                } else {
+                    Err(self.fail(&["C03", "C01"], "forge-missed-identical", format!("{:?} with {} {:?}, bit-identical to live handle {:?}, reported absence", path, key.kind_name(), raw, m)))
+                }
+            }
+            (Ok(Some(o)), None) => Err(self.fail(&["C03"], "forge-accepted", format!("{:?} with forged {} {:?} on {} was accepted (reached {:?}, stamps {:x?}) although no live entity of the addressed archetype has these bits", path, key.kind_name(), raw, name, o.raw, o.vals))),
+            (Ok(Some(o)), Some((t, m))) => {
+                self.label("forge_matched_live");
+                if path.reads_values() {
+                    if o.raw != Some(m) {
+                        return Err(self.fail(&["C03"], "forge-wrong-entity", format!("{:?} with {} {:?} (bit-identical to live {:?}) reached {:?}", path, key.kind_name(), raw, m, o.raw)));
+                    }
+                    if t == a {
+                        let e = &self.sims[si].archs[t].live[&m];
+                        if o.vals != e.vals || o.trk != e.trk {
+                            let (ev, et) = (e.vals.clone(), e.trk.clone());
+                            return Err(self.fail(&["C03"], "forge-wrong-values", format!("{:?} with {} {:?} (bit-identical to live {:?}) read stamps {:x?} / instances {:?}, expected {:x?} / {:?}", path, key.kind_name(), raw, m, o.vals, o.trk, ev, et)));
+                        }
+                    }
+                }
+                Ok(())
+            }
+        }
+    }
+
+    fn forge_direct(&mut self, si: usize, a: usize, class: u8, x: u16, y: u16, route: u8) -> R {
+        let len = self.sims[si].archs[a].live.len();
+        let cap = self.sims[si].archs[a].last_cap;
+        let narch = self.infos.len();
+        let mut dangerous = false;
+        // what the forged handle is made of: (archetype it is typed for, index, version)
+        let my_version = W::arch_version(&self.sims[si].w, a);
+        let d: EntityDirectAny = if class == 7 {
+            let idx = match x % 7 {
+                0 => 0,
+                1 => len.saturating_sub(1),
+                2 => len,
+                3 => cap,
+                4 => 0xff_ffff,
+                5 => len + 1,
+                _ => (y as usize) % (cap + 2),
+            } & 0xff_ffff;
+            let version = match y % 4 {
+                0 | 1 => my_version,
+                2 => W::arch_version(&self.sims[si].w, (a + 1) % narch),
+                _ => W::arch_version(&self.sims[(si + 1) % self.sims.len()].w, a),
+            };
+            if idx == len && version == my_version {
+                dangerous = true;
+            }
+            W::new_direct(a, idx, version)
+        } else {
+            // a direct handle of another world (clone that diverged, or the other lineage)
+            let other = (si + 1) % self.sims.len();
+            let ds = &self.sims[other].directs;
+            if other == si || ds.is_empty() {
+                W::new_direct(a, len, my_version)
+            } else {
+                let rec = &ds[scale(x, ds.len())];
+                if rec.arch == a {
+                    // does its version match ours? (ArchetypeVersion is PartialEq)
+                    let probe = W::new_direct(a, 0, my_version);
+                    let same_version = format!("{:?}", probe).rsplit("version:").next() == format!("{:?}", rec.d).rsplit("version:").next();
+                    if same_version {
+                        dangerous = true;
+                    }
+                }
+                rec.d
+            }
+        };
+        if dangerous {
+            self.label("forge_dangerous");
+        }
+        self.count("forged_probes", 1);
+        // decode the forged handle's fields from its Debug form
+        let s = format!("{:?}", d);
+        let nums: Vec<u64> = s.split(|c: char| !c.is_ascii_digit()).filter(|t| !t.is_empty()).filter_map(|t| t.parse().ok()).collect();
+        if nums.len() != 3 {
+            return Err(self.fail(&["C03"], "harness-direct-debug", format!("harness bug: cannot parse {:?}", d)));
+        }
+        let (d_id, d_idx, d_ver) = (nums[0] as u8, nums[1] as usize, nums[2]);
+        let my_id = self.infos[a].id;
+        let all_paths: Vec<LookupPath> = BOOL_PATHS.iter().chain(VALUE_PATHS.iter()).copied().collect();
+        let nroutes = all_paths.len() + 2;
+        let r = route as usize % nroutes;
+        let kind = (route as usize / nroutes) % 2;
+        let mut key = if kind == 0 { Key::DirAny(d) } else { Key::DirU(d) };
+        let world_level = |p: LookupPath| matches!(p, LookupPath::WContains | LookupPath::WToDirect | LookupPath::WView | LookupPath::WBorrow | LookupPath::Find | LookupPath::FindAny | LookupPath::FindWild | LookupPath::FindBorrow | LookupPath::FindBorrowAny | LookupPath::FindBorrowWild);
+        let is_lookup = r < all_paths.len();
+        let path = if is_lookup { all_paths[r] } else { LookupPath::AContains };
+        if is_lookup && path.typed_only() {
+            key = Key::DirU(d);
+        }
+        let level = if r == all_paths.len() { Level::World } else { Level::Arch };
+        let target: Option<usize> = match key {
+            Key::DirAny(_) => {
+                let wl = if is_lookup { world_level(path) } else { level == Level::World };
+                if wl {
+                    self.arch_by_id(d_id)
+                } else if d_id == my_id {
+                    Some(a)
+                } else {
+                    None
+                }
+            }
+            _ => Some(a),
+        };
+        // expected entity: version equals the target's current version and index < len
+        let expected: Option<(usize, Raw)> = target.and_then(|t| {
+            let tv = self.sims[si].archs[t].version;
+            let tlen = self.sims[si].archs[t].live.len();
+            if d_ver == tv && d_idx < tlen {
+                // which entity sits at that dense index: public entities() slice
+                let ents = catch(|| W::iterate(&mut self.sims[si].w, t, IterPath::Entities, None)).ok()?;
+                ents.get(d_idx).and_then(|o| o.raw).map(|r| (t, r))
+            } else {
+                None
+            }
+        });
+        if is_lookup {
+            let res = catch(|| W::lookup(&mut self.sims[si].w, a, path, key));
+            let name = self.infos[a].name;
+            return match (res, expected) {
+                (Err(m), _) => {
+                    if allowed_panic(&m) {
+                        self.label("forge_clean_panic");
+                        Ok(())
+                    } else {
+                        Err(self.fail(&["C03"], "forge-panic", format!("{:?} with forged {} {:?} on {} panicked uncleanly: {}", path, key.kind_name(), d, name, m)))
+                    }
+                }
+                (Ok(None), None) => Ok(()),
+                (Ok(None), Some((t, m))) => {
+                    let via_find = matches!(path, LookupPath::Find | LookupPath::FindAny | LookupPath::FindWild | LookupPath::FindBorrow | LookupPath::FindBorrowAny | LookupPath::FindBorrowWild);
+                    if via_find && t != a {
+                        Ok(())
+                    } else {
+                        Err(self.fail(&["C03", "C09"], "forge-missed-identical", format!("{:?} with {} {:?}, bit-identical to a valid direct handle of live entity {:?}, reported absence", path, key.kind_name(), d, m)))
+                    }
+                }
+                (Ok(Some(o)), None) => Err(self.fail(&["C03"], "forge-accepted", format!("{:?} with forged {} {:?} on {} (len {}, version {}) was accepted (reached {:?})", path, key.kind_name(), d, name, self.sims[si].archs[a].live.len(), self.sims[si].archs[a].version, o.raw))),
+                (Ok(Some(o)), Some((t, m))) => {
+                    self.label("forge_matched_live");
+                    if path.reads_values() && o.raw != Some(m) {
+                        return Err(self.fail(&["C03"], "forge-wrong-entity", format!("{:?} with {} {:?} must reach {:?} (dense index {} of archetype index {}) but reached {:?}", path, key.kind_name(), d, m, d_idx, t, o.raw)));
+                    }
+                    Ok(())
+                }
+            };
+        }
+        // destroy with a forged direct handle
+        if let Some((t, m)) = expected {
+            if self.overflow_due_pub(si, t, m).is_some() {
+                return Ok(());
+            }
+        }
+        let res = catch(|| W::destroy(&mut self.sims[si].w, a, level, key));
+        match (res, expected) {
+            (Err(m), _) => {
+                if allowed_panic(&m) {
+                    self.label("forge_clean_panic");
+                    Ok(())
+                } else {
+                    Err(self.fail(&["C03"], "forge-panic", format!("destroy({}, {:?}) with forged {:?} panicked uncleanly: {}", key.kind_name(), level, d, m)))
+                }
+            }
+            (Ok(None), None) => Ok(()),
+            (Ok(Some(_)), Some((t, m))) => {
+                self.model_remove_pub(si, t, m);
+                self.label("forge_matched_live");
+                Ok(())
+            }
+            (Ok(None), Some((_, m))) => Err(self.fail(&["C03", "C09"], "forge-missed-identical", format!("destroy({}, {:?}) with {:?}, bit-identical to a valid direct handle of {:?}, reported absence", key.kind_name(), level, d, m))),
+            (Ok(Some(_)), None) => Err(self.fail(&["C03"], "forge-accepted", format!("destroy({}, {:?}) accepted forged direct handle {:?} on {}", key.kind_name(), level, d, self.infos[a].name))),
+        }
     }
 }
